@@ -678,7 +678,8 @@ bool daily_point_between(int64_t a_ns, int64_t b_ns, bool gmt, int hh, int mm)
   }
   int64_t a = a_ns / 1000000000ll, b = b_ns / 1000000000ll;
   // candidate days: from the day of a - 1 to the day of b + 1
-  for (int64_t day = a - 86400 * 2; day <= b + 86400 * 2; day += 86400)
+  // (half-day steps: with 24 h steps a probe taken late in the evening skips the calendar day of a DST change)
+  for (int64_t day = a - 86400 * 2; day <= b + 86400 * 2; day += 43200)
   {
     time_t t = static_cast<time_t>(day);
     tm tmv;
@@ -997,7 +998,21 @@ Verdict run_rot(Case const& c, std::string const& dir)
                         " (ts " + std::to_string(model.st[b].ts) + ") are both in '" + where[a] + "' although a scheduled rotation point lies between them",
                       {{"frequency", freq == 1 ? "daily" : (freq == 2 ? "hourly" : "minutely")}});
         }
-        if (demands[b].must == 0 && !same && !limit)
+        bool size_rotation_justified = false;
+        if (demands[b].must == 0 && !same && limit)
+        {
+          // a size rotation is justified only if b did not fit behind what a's file held up to a
+          size_t filled = 0;
+          for (size_t idx : seq)
+          {
+            if (idx <= a && where[idx] == where[a])
+            {
+              filled += model.st[idx].size;
+            }
+          }
+          size_rotation_justified = filled + model.st[b].size > static_cast<size_t>(limit);
+        }
+        if (demands[b].must == 0 && !same && !size_rotation_justified)
         {
           return viol("statements_separated_without_a_rotation_point",
                       "statements " + std::to_string(a) + " and " + std::to_string(b) + " are in different files ('" + where[a] + "', '" +
